@@ -4,17 +4,23 @@ CFG = dict(
     level_text="Theorems (all sample lists, EVERY kept set, any entry key type): an entry that is kept has exactly the flat/cum numbers of "
                "the untrimmed graph; every edge of a trimmed graph carries the definition sum over the kept sequence, joins shown entries, "
                "and refers to no removed entry; model of the two-pass trimming (cum cutoff, top N under the active order, "
-               "edge cutoff, redundant residual edges) tied to the code around every cutoff.",
+               "edge cutoff, redundant residual edges) tied to the code around every cutoff. End-to-end layer: top/tree/dot text comes from "
+               "driver.PProf (flags), an interactive session (`top N >file`) or the web /top page; call_tree with text/tree must be ignored; "
+               "source_path/trim_path clean-up is modelled per graph build (text_report_nodes_unchanged holds under paths_stable; F40 "
+               "refutes the unconditional removed-exactly clause); untrimmed_request_shows_all.",
     level_note="Cutoffs enter as the integers computed by the implementation's float expression; in graphical reports the survivor set and "
                "order (EntropyOrder, float log2) are taken from the implementation and the invariance is checked for that set; "
                "TrimTree (call_tree with dot) is not modelled.",
     rule="inputs = (profile, options with nodecount / node cutoff / edge cutoff / sort, output form): chains, diamonds and random "
          "profiles x nodecount in {0,1,2,3,n-1,n,n+1} x fractions placing the cutoff just below/at/above each distinct |cum| and "
          "edge weight x sort x text/tree/dot; distinct = sha256 of the input term; non-trivial = some trimming is active and the profile "
-         "has at least 2 samples",
+         "has at least 2 samples. End-to-end streams: every cutoff of every chain with call_tree set for top/tree (deterministic); "
+         "source_path/trim_path configurations x lines/files/filefunctions/addresses x cutoffs; nodecount not given; trim=false; "
+         "entry points cli / session (decoys, own numeric argument) / web top (500 entries)",
     spec_what="a shown entry or non-residual edge differs from the untrimmed report, the wrong entries were removed, the accounting-for "
               "figure is not the sum of the flat values shown, or an edge refers to a removed entry",
     trusted_base=["text parsers of the harness", "float cutoff expression evaluated by the harness (report.go:138-139)",
-                  "survivor order of graphical reports taken from the implementation (GetDOT)"],
+                  "survivor order of graphical reports taken from the implementation (GetDOT)",
+                  "plug-in stubs of the end-to-end layer (Fetcher, no-op symbolizer, capturing Writer/UI, httptest request)"],
     assumptions=["node orders are total on the generated names (C08)", "values of text-form cases are small integers in unit 'count'"],
  )
